@@ -118,13 +118,47 @@ CHECKS = {
         technique="TLA+ spec + TLC; recorded end-to-end runs validated by TLC",
         design_ref="4.13, 5/C35",
     ),
+    "C18": dict(
+        category="model_checking",
+        text="Pipeline.tla models the post-search pipeline over all small test cases incl. the export decision table "
+             "(a raising statement is wrapped in pytest.raises when expected, otherwise the function is marked "
+             "xfail(strict); ExportVerdict). The file every end-to-end run exports is run with the real pytest in a "
+             "fresh interpreter against the uninstrumented module; TLC validates collection and every per-test "
+             "outcome (PipelineTrace.tla: FileImportsCleanly, TestVerdicts: passed, or xfailed exactly when marked).",
+        note="End-to-end runs of the shared corpus (6 deterministic modules x DYNAMOSA/MIO/WHOLE_SUITE x SIMPLE/MUTATION_ANALYSIS/NONE x 7 minimisation strategy/direction pairs x seeds; 4 iterations each); runs are cached per tree hash. pytest runs with only the corpus directory on PYTHONPATH.",
+        technique="TLA+ spec + TLC; exported files of recorded end-to-end runs executed by pytest; TLC trace validation",
+        design_ref="4.12, 5/C18",
+    ),
+    "C19": dict(
+        category="model_checking",
+        text="Pipeline.tla: KeepAsserts over all small test cases through statement minimisation, unused-variable "
+             "removal and export; the variant of remove_unused_variables before commit 1355a01 must violate it. "
+             "End-to-end runs: every statement that carries reference assertions after assertion generation and "
+             "assertion minimisation must appear in the exported file followed by as many assert lines; TLC "
+             "validates every such statement (PipelineTrace.tla: AssertionsKept).",
+        note="End-to-end runs of the shared corpus (6 deterministic modules x DYNAMOSA/MIO/WHOLE_SUITE x SIMPLE/MUTATION_ANALYSIS/NONE x 7 minimisation strategy/direction pairs x seeds; 4 iterations each); runs are cached per tree hash. Statements are located by whitespace-normalised source (full statement or its "
+             "right-hand side). Open known finding: the opt-in SUITE strategy removes whole asserted test cases.",
+        technique="TLA+ spec + TLC (must-fail variant); recorded end-to-end runs validated by TLC",
+        design_ref="4.11, 5/C19",
+    ),
+    "C22": dict(
+        category="model_checking",
+        text="Pipeline.tla: MinKeeps (coverage unchanged, only original statements, asserted statements kept) over "
+             "all small test cases. End-to-end runs with CASE/SUITE/COMBINED/NONE x FORWARD/BACKWARD: coverage per "
+             "optimised coverage function is recomputed by re-executing cache-free clones before and after "
+             "generator._minimize; TLC validates CoveragePreserved, OnlyOriginalStatements, AssertedStatementsKept.",
+        note="End-to-end runs of the shared corpus (6 deterministic modules x DYNAMOSA/MIO/WHOLE_SUITE x SIMPLE/MUTATION_ANALYSIS/NONE x 7 minimisation strategy/direction pairs x seeds; 4 iterations each); runs are cached per tree hash. Coverage floats compared by rank; statements by normalised source. Open known "
+             "finding: SUITE strategy removes asserted test cases.",
+        technique="TLA+ spec + TLC; recorded end-to-end runs validated by TLC",
+        design_ref="4.11, 5/C22",
+    ),
 }
 
 NOT_BUILT_REASON = "not built yet in this round (planned, see DESIGN.md section 5); no claim is made"
 NOT_APPLICABLE = {}
 
 # builder-delivered checks are only claimed once reviewed and listed here
-READY = {"C27", "C10", "C11", "C14", "C28", "C20", "C23", "C13"}
+READY = {"C27", "C10", "C11", "C14", "C28", "C20", "C23", "C13"}  # C12, C29 pending re-run
 
 
 def _load_from_notes() -> None:
